@@ -837,7 +837,13 @@ class GList:
 
 
 def guarded_check(solver, timeout_ms):
-    """solver.check(); errors count as unknown.  (An interrupting watchdog thread was tried and crashed z3: not used.)"""
+    """solver.check() bounded by z3's resource limit in addition to its wall-clock timeout: the timeout alone is not always honoured
+    (seen: quantifier instantiation loops inside one check), the deterministic rlimit is.  Errors / exhausted limits count as unknown.
+    (An interrupting watchdog thread was tried and crashed z3: not used.)"""
+    try:
+        solver.set("rlimit", max(2000000, int(timeout_ms) * 40000))
+    except z3.Z3Exception:
+        pass
     try:
         return solver.check()
     except z3.Z3Exception:
